@@ -259,3 +259,70 @@ def pair_sequence(pi: int, swap: bool, warm: int, stores: bool, e1: bool, e2: bo
     assert got == exp, "after %r, %r behaves differently with a parse cache (%r) than without (%r)" % (first, second, got, exp)
     assert bad_key is None, bad_key
     hlib.done()
+
+
+# ---- the tree of a lambda is the same before and after calls of the closure, however deep they nest and however they end
+class ReBody(Op):
+    """lambda body stand-in: calls the closure again until a given depth, then returns or raises"""
+
+    def __init__(self):
+        self.closure = None
+        self.remaining = 0
+        self.fail_at_bottom = False
+
+    def eval(self, state):
+        Op.eval(self, state)
+        if self.remaining > 0:
+            self.remaining -= 1
+            return self.closure(1)
+        if self.fail_at_bottom:
+            raise ValueError("bottom")
+        return 0
+
+
+DEPTHS = [1, 3, 60, 70, 130, 260]
+
+
+def lambda_reentry(di: int, fail: bool, times: int) -> None:
+    """
+    pre: 0 <= di < 6 and 1 <= times <= 3
+    post: True
+    """
+    hlib.enter(locals())
+    di, times = hlib.concrete(di, 0, 5), hlib.concrete(times, 1, 3)
+    fail = True if fail else False
+    with hlib.native():
+        from smartquery.ast_ops import LambdaOp, NameOp
+        body = ReBody()
+        node = LambdaOp(args=[NameOp('p')], expr=body)
+        st = mkstate(0, 10**7, host={})
+        f = node.eval(st)
+        body.closure = f
+        body.fail_at_bottom = fail
+
+        def plain(n):
+            return {k: v for k, v in vars(n).items() if not callable(v) and k != 'expr'}
+        before = _copy.deepcopy(plain(node))
+        outcomes = []
+        for _ in range(times):
+            body.remaining = DEPTHS[di]
+            try:
+                f(1)
+                outcomes.append('ok')
+            except RecursionError:
+                outcomes.append('recursion')
+            except Exception as e:
+                outcomes.append(type(e).__name__)
+        after = plain(node)
+        depth_left = len(st.names.scopes)
+        # a shallow call afterwards behaves like the first shallow call would
+        body.remaining, body.fail_at_bottom = 1, False
+        try:
+            f(1)
+            last = 'ok'
+        except Exception as e:
+            last = type(e).__name__
+    assert after == before, "calls of a lambda's closure (nesting %d deep, ending with %s) left the tree node changed: %r -> %r" % (DEPTHS[di], outcomes, before, after)
+    assert depth_left == 2, "scopes leaked after nested lambda calls"
+    assert last == 'ok', "after calls nesting %d deep (%s) a shallow call of the same lambda fails with %s" % (DEPTHS[di], outcomes, last)
+    hlib.done()
